@@ -1,5 +1,6 @@
 (* C12 - answers depend only on meaning, not on presentation. *)
-From InfOCF Require Import Core Tol Form Model Spec ThmInv.
+From InfOCF Require Import Core Tol Form Model Spec ThmInv ThmPerm ThmSim ThmSimInst.
+From Coq Require Import Permutation.
 From InfOCFProps Require Import Ex.
 
 (* conditionals listed in the same order with pairwise equal verification and falsification sets - whatever their
@@ -9,6 +10,32 @@ Theorem C12_keys_and_equivalent_formulas : forall n s weakly D D' q q', Forall2 
   infer n s weakly D q = infer n s weakly D' q'.
 Proof. exact presentation_invariance. Qed.
 Print Assumptions C12_keys_and_equivalent_formulas.
+
+(* listing the conditionals in a different order *)
+Theorem C12_order_of_the_base : forall n s weakly D D' q, Permutation D D' -> infer n s weakly D q = infer n s weakly D' q.
+Proof. exact order_invariance. Qed.
+Print Assumptions C12_order_of_the_base.
+
+(* renaming the atoms consistently by a permutation rho of the signature positions (this is also re-ordering the signature) *)
+Theorem C12_renaming_of_atoms : forall n rho rho', (forall i, i < n -> rho i < n) -> (forall i, i < n -> rho' (rho i) = i) ->
+  forall s weakly D q, forallb (cbounded n) D = true -> cbounded n q = true ->
+  infer n s weakly (map (rencond rho) D) (rencond rho q) = infer n s weakly D q.
+Proof. exact renaming_invariance. Qed.
+Print Assumptions C12_renaming_of_atoms.
+
+(* extending the signature by k atoms that neither the base nor the query mentions *)
+Theorem C12_unused_atoms : forall n k s weakly D q, forallb (cbounded n) D = true -> cbounded n q = true ->
+  infer (n + k) s weakly D q = infer n s weakly D q.
+Proof. exact signature_extension. Qed.
+Print Assumptions C12_unused_atoms.
+
+(* the general principle behind the last two: a map phi from one world list onto another under which every conditional is
+   verified / falsified at w exactly as its counterpart at phi w *)
+Theorem C12_simulation : forall n1 n2 phi, (forall w, In w (worlds n1) -> In (phi w) (worlds n2)) ->
+  (forall u, In u (worlds n2) -> exists w, In w (worlds n1) /\ phi w = u) ->
+  forall s weakly D1 D2 q1 q2, Forall2 (qrel phi) D1 D2 -> qrel phi q1 q2 -> infer n1 s weakly D1 q1 = infer n2 s weakly D2 q2.
+Proof. exact simulation_invariance. Qed.
+Print Assumptions C12_simulation.
 
 (* the same for the partitions themselves (layer by layer) *)
 Theorem C12_partition_invariance : forall n weakly D D', Forall2 ceq D D' ->
